@@ -23,9 +23,10 @@ theorem PI.move (h : PI none fl T C s) (i : Nat) (hc : i ∈ s.cache) (st : Stmt
     (hq : (s.th i).qStmts = st :: rest) (hst : st.ts ≤ fl) (f : Th → Th)
     (hf : (f (s.th i)).buf = (s.th i).buf ++ [st] ∧ (f (s.th i)).qStmts = rest ∧
       (f (s.th i)).accepted = (s.th i).accepted ∧ (f (s.th i)).q.wpos = (s.th i).q.wpos ∧
-      (f (s.th i)).q.wHist.headD 0 = (s.th i).q.wHist.headD 0 ∧ (f (s.th i)).q.rpos = (s.th i).q.rpos + st.size) :
+      (f (s.th i)).q.wHist.headD 0 = (s.th i).q.wHist.headD 0 ∧ (f (s.th i)).q.rpos = (s.th i).q.rpos + st.size ∧
+      (f (s.th i)).valid = (s.th i).valid) :
     PI none fl (fun j => T j ∧ j ≠ i) C (s.setTh i f) := by
-  obtain ⟨f1, f2, f3, f4, f5, f6⟩ := hf
+  obtain ⟨f1, f2, f3, f4, f5, f6, f7⟩ := hf
   have hchain : chain (f (s.th i)) = chain (s.th i) := by
     simp only [chain, f1, f2, hq, List.append_assoc, List.singleton_append]
   have hcases : ∀ j, (s.setTh i f).th j = s.th j ∨ (j = i ∧ (s.setTh i f).th j = f (s.th i)) := by
@@ -53,10 +54,17 @@ theorem PI.move (h : PI none fl T C s) (i : Nat) (hc : i ∈ s.cache) (st : Stmt
         refine ⟨by rw [f4, f5]; exact q0.wpos, ?_, ?_⟩
         · rw [f5, f6, f2, q0.sum, hq]; simp; omega
         · rw [f2]; intro r hr; exact q0.pos r (by rw [hq]; exact List.mem_cons_of_mem _ hr)
-    bufCache := fun j => by
+    reg := fun j => by rw [hch]; exact h.reg j
+    bufCache := fun j hjr => by
       rcases hcases j with h1 | ⟨rfl, h1⟩
-      · rw [h1]; exact h.bufCache j
+      · rw [h1]; exact h.bufCache j hjr
       · intro _; exact hc
+    ctxReg := fun b y j hy hj => by
+      obtain ⟨r1, r2⟩ := h.ctxReg b y j hy hj
+      refine ⟨r1, ?_⟩
+      rcases hcases j with h1 | ⟨rfl, h1⟩
+      · rw [h1]; exact r2
+      · rw [h1, f7]; exact r2
     ctxLt := fun b y j hy hj => by rw [length_setTh]; exact h.ctxLt b y j hy hj
     pend := fun b y r hy hb hpd => by
       obtain ⟨p1, p2, p3⟩ := h.pend b y r hy hb hpd
@@ -140,7 +148,7 @@ theorem PI.rqMove (h : PI none fl T C s) (i : Nat) (hc : i ∈ C) (st : Stmt) (r
   have e := hs.th i
   refine h2.move i (by rw [h2.cacheEq]; exact hc) st rest (by rw [e.q]; exact hq) hst _ ?_
   have f1 := qFinishRead_fields s2.cfg (s2.th i).q st.size
-  exact ⟨rfl, rfl, rfl, f1.1, congrArg (fun l => List.headD l 0) f1.2.1, f1.2.2⟩
+  exact ⟨rfl, rfl, rfl, f1.1, congrArg (fun l => List.headD l 0) f1.2.1, f1.2.2, rfl⟩
 
 variable {inj : BSt → Nat → BSt}
 
@@ -288,6 +296,28 @@ theorem low_fold (s : BSt) (l : List Nat) : ∀ (acc : Option (Nat × Nat)) (P :
           · exact Or.inl (Or.inr e)
           · exact Or.inr e)⟩
 
+theorem low_mem (s : BSt) (l : List Nat) : ∀ (P : Nat → Prop) (acc : Option (Nat × Nat)),
+    (∀ jm, acc = some jm → P jm.1) → ∀ jm, l.foldl (lowStep s) acc = some jm → P jm.1 ∨ jm.1 ∈ l := by
+  induction l with
+  | nil => intro P acc h jm hjm; exact Or.inl (h jm hjm)
+  | cons x xs ih =>
+    intro P acc h jm hjm
+    rw [List.foldl_cons] at hjm
+    have key : ∀ km, lowStep s acc x = some km → (P km.1 ∨ km.1 = x) := by
+      intro km hkm
+      unfold lowStep at hkm
+      split at hkm
+      · exact Or.inl (h km hkm)
+      · split at hkm
+        · cases hkm; exact Or.inr rfl
+        · split at hkm
+          · cases hkm; exact Or.inr rfl
+          · exact Or.inl (h km hkm)
+    rcases ih (fun j => P j ∨ j = x) _ key jm hjm with (h1 | h1) | h1
+    · exact Or.inl h1
+    · exact Or.inr (by rw [h1]; exact List.mem_cons_self ..)
+    · exact Or.inr (List.mem_cons_of_mem _ h1)
+
 theorem lowest_eq (s : BSt) : lowest s = (s.cache.foldl (lowStep s) none).map (·.1) := rfl
 
 theorem lowest_spec {s : BSt} {j : Nat} (h : lowest s = some j) :
@@ -304,6 +334,18 @@ theorem lowest_spec {s : BSt} {j : Nat} (h : lowest s = some j) :
     obtain ⟨⟨st, rest, h1, h2⟩, h3⟩ := this
     exact ⟨st, rest, h1, fun i hi f fs hf => by rw [h2]; exact h3 i (Or.inr hi) f fs hf⟩
 
+theorem lowest_mem {s : BSt} {j : Nat} (h : lowest s = some j) : j ∈ s.cache := by
+  rw [lowest_eq] at h
+  cases hr : List.foldl (lowStep s) none s.cache with
+  | none => rw [hr] at h; cases h
+  | some jm =>
+    rw [hr] at h
+    simp only [Option.map_some, Option.some.injEq] at h
+    subst h
+    rcases low_mem s s.cache (fun _ => False) none (fun _ h => by cases h) jm hr with h1 | h1
+    · exact h1.elim
+    · exact h1
+
 /-! ### popping the minimum front -/
 
 /-- the crux of C05: the minimum front is ≤ everything buffered or queued in any registered context, provided
@@ -313,9 +355,9 @@ theorem PIo.pop (h : PIo fl s)
     (j : Nat) (hj : j ∈ s.cache) (st : Stmt) (rest : List Stmt) (hb : (s.th j).buf = st :: rest)
     (hmin : ∀ i ∈ s.cache, ∀ f fs, (s.th i).buf = f :: fs → st.ts ≤ f.ts) (f : Th → Th)
     (hf : (f (s.th j)).buf = rest ∧ (f (s.th j)).qStmts = (s.th j).qStmts ∧ (f (s.th j)).accepted = (s.th j).accepted ∧
-      (f (s.th j)).q = (s.th j).q) :
+      (f (s.th j)).q = (s.th j).q ∧ (f (s.th j)).valid = (s.th j).valid) :
     PIo fl { s.setTh j f with popLog := st :: s.popLog } := by
-  obtain ⟨f1, f2, f3, f4⟩ := hf
+  obtain ⟨f1, f2, f3, f4, f5⟩ := hf
   let s' : BSt := { s.setTh j f with popLog := st :: s.popLog }
   have hcases : ∀ i, s'.th i = s.th i ∨ (i = j ∧ s'.th i = f (s.th j)) := by
     intro i; rcases th_setTh_cases s j i f with h1 | ⟨h1, _, h2⟩
@@ -346,10 +388,24 @@ theorem PIo.pop (h : PIo fl s)
       · rw [h1]; exact h.qc i
       · rw [h1]; have q0 := h.qc i
         exact ⟨by rw [f4]; exact q0.wpos, by rw [f4, f2]; exact q0.sum, by rw [f2]; exact q0.pos⟩
-    bufCache := fun i => by
+    reg := fun i hne => by
+      refine h.reg i ?_
+      intro he
+      cases hci : chain (s'.th i) with
+      | nil => exact hne hci
+      | cons r rs =>
+        have := hsub i r (by rw [hci]; exact List.mem_cons_self ..)
+        rw [he] at this; cases this
+    bufCache := fun i hir => by
       rcases hcases i with h1 | ⟨rfl, h1⟩
-      · rw [h1]; exact h.bufCache i
+      · rw [h1]; exact h.bufCache i hir
       · intro _; exact hj
+    ctxReg := fun b y i hy hi => by
+      obtain ⟨r1, r2⟩ := h.ctxReg b y i hy hi
+      refine ⟨r1, ?_⟩
+      rcases hcases i with h1 | ⟨rfl, h1⟩
+      · rw [h1]; exact r2
+      · rw [h1, f5]; exact r2
     ctxLt := fun b y i hy hi => by
       show i < (s.setTh j f).ths.length
       rw [length_setTh]; exact h.ctxLt b y i hy hi
@@ -370,7 +426,7 @@ theorem PIo.pop (h : PIo fl s)
           have := hall hp0 i hi hbi r this
           omega
         | cons f0 fs =>
-          have hic : i ∈ s.cache := h.bufCache i (by rw [hbi]; simp)
+          have hic : i ∈ s.cache := h.bufCache i hi (by rw [hbi]; simp)
           have h1 := hmin i hic f0 fs hbi
           have h2 := headLe_of_sorted (h.sorted i) (by simp only [chain, hbi, List.cons_append]; rfl) r hr
           omega
@@ -428,7 +484,7 @@ theorem PIo.processLowest (hi : InjOK inj) (h : PIo fl s)
     · rename_i st' rest' hb
       rw [hb0] at hb; cases hb
       have hb := hb0
-      have hj : j ∈ s.cache := h.bufCache j (by rw [hb]; simp)
+      have hj : j ∈ s.cache := lowest_mem hlow
       have hcore : core (plNote (processEvent s st)) = core s := by
         unfold plNote; split
         · rw [core_emit]; exact core_processEvent s st
@@ -441,7 +497,7 @@ theorem PIo.processLowest (hi : InjOK inj) (h : PIo fl s)
       have h2 : PIo fl s2 := h.frame hcore
       have hpop : PIo fl (plPop s2 j st rest) := by
         unfold plPop
-        refine h2.pop ?_ j (by rw [hcache]; exact hj) st rest (by rw [hth]; exact hb) ?_ _ ⟨rfl, rfl, rfl, rfl⟩
+        refine h2.pop ?_ j (by rw [hcache]; exact hj) st rest (by rw [hth]; exact hb) ?_ _ ⟨rfl, rfl, rfl, rfl, rfl⟩
         · intro hp i hir hbi r hr
           rw [hth] at hbi hr; rw [hreg] at hir
           refine hall ?_ i hir hbi r hr
